@@ -229,7 +229,7 @@ theorem sim_m (cs : SpaceMap) (st : IState) (ss : SState) (hs : Sim cs st ss) (p
   refine ⟨pushSeg st (.m p), ?_, ?_⟩
   · simp only [tokens, nums_eq, exec_operands, exec_single]
     rw [doOp_call .m 2 (by decide) (by decide) st _ (by simp)]
-    simp [call, allNums, safeFloat]
+    simp [call, doSeg_m]
   · exact { ctm := hs.ctm, gs := hs.gs, gstack := hs.gstack,
             path := by simp [pushSeg, stepS, enc_append, hs.path, enc, enc1, tail1],
             ok := okFrom_snoc_explicit _ _ _ _ rfl hs.ok, out := hs.out, csmap := hs.csmap }
@@ -245,19 +245,19 @@ theorem sim_seg (cs : SpaceMap) (st : IState) (ss : SState) (hs : Sim cs st ss) 
     | l p =>
       simp only [tokens, segToks, nums_eq, exec_operands, exec_single]
       rw [doOp_call .l 2 (by decide) (by decide) st _ (by simp)]
-      simp [call, allNums, safeFloat, Seg.toPSeg]
+      simp [call, doSeg_l, Seg.toPSeg]
     | c a b d =>
       simp only [tokens, segToks, nums_eq, exec_operands, exec_single]
       rw [doOp_call .c 6 (by decide) (by decide) st _ (by simp)]
-      simp [call, allNums, safeFloat, Seg.toPSeg]
+      simp [call, doSeg_c, Seg.toPSeg]
     | v a b =>
       simp only [tokens, segToks, nums_eq, exec_operands, exec_single]
       rw [doOp_call .v 4 (by decide) (by decide) st _ (by simp)]
-      simp [call, allNums, safeFloat, Seg.toPSeg]
+      simp [call, doSeg_v, Seg.toPSeg]
     | y a b =>
       simp only [tokens, segToks, nums_eq, exec_operands, exec_single]
       rw [doOp_call .y 4 (by decide) (by decide) st _ (by simp)]
-      simp [call, allNums, safeFloat, Seg.toPSeg]
+      simp [call, doSeg_y, Seg.toPSeg]
   · exact { ctm := hs.ctm, gs := hs.gs, gstack := hs.gstack,
             path := by simp [pushSeg, stepS, ha.1, hs.path],
             ok := ha.2, out := hs.out, csmap := hs.csmap }
@@ -405,7 +405,7 @@ theorem sim_cm (cs : SpaceMap) (st : IState) (ss : SState) (hs : Sim cs st ss) (
   refine ⟨{ st with ctm := mult_matrix (a, b, c, d, e, f) st.ctm }, ?_, ?_⟩
   · simp only [tokens, nums_eq, exec_operands, exec_single]
     rw [doOp_call .cm 6 (by decide) (by decide) st _ (by simp)]
-    simp [call, allNums, safeFloat]
+    simp [call, allNums, safeFloat, cmPremultiplies]
   · exact { ctm := by simp [stepS, hs.ctm], gs := hs.gs, gstack := hs.gstack, path := hs.path, ok := hs.ok,
             out := hs.out, csmap := hs.csmap }
 
@@ -659,7 +659,7 @@ theorem sim_bad (cs : SpaceMap) (st : IState) (ss : SState) (hs : Sim cs st ss) 
     first
       | (cases har; done)
       | (exact fixed _ (by decide) (by decide) (Option.some.inj har).symm (by
-            simp [call, doDeviceColour, hbad']))
+            simp [call, doDeviceColour, doSeg, hbad']))
       | (split at har
          · cases har
          · rename_i hnp
